@@ -35,7 +35,9 @@ RULE = ("cases = (method, plan, dialogue cut, fault schedule, pre-existing forei
         "tear-down faults; the helper's log streams (sys.stderr / sys.stdout behind the real helpers.log) failing "
         "with EIO / EPIPE / closed-file at verbosity 0/1/2 during the tear-down or all along with a set-up fault to "
         "undo; pf (OpenBSD flavour; Darwin in thorough) sessions incl. a long one with many QUERY_PF_NAT lines under a "
-        "descriptor budget at the OS boundary (os.open / Popen answer EMFILE when it is used up); plus signal "
+        "descriptor budget at the OS boundary (os.open / Popen answer EMFILE when it is used up), and for the "
+        "dual-family OpenBSD-style session (both halves share _pf_context) every command of set-up and tear-down failing "
+        "once as exit status and as OSError, pf's enabled flag / tokens / anchor contents compared with before; plus signal "
         "sequences (SIGHUP/SIGPIPE/SIGINT/SIGTERM, repeated) delivered to a real helper process after STARTED "
         "before the control channel closes; a case is "
         "non-trivial when at least one firewall command was issued; distinct = distinct (method, dialogue, "
@@ -77,7 +79,10 @@ MANIFEST = dict(
                 "set-up-undo histories. pf: modelled in Lean and in PyEnv from the manual pages (unvalidated), no "
                 "theorem and no code-model diff; driven on the real code with a descriptor budget (a long session of "
                 "QUERY_PF_NAT lines must not exhaust it; pf must be back in its pre-session state), environments "
-                "cross-checked; the anchor references add_anchors() leaves in the main ruleset are a known finding. "
+                "cross-checked; single faults in every set-up and tear-down command of a dual-family session (set-up: pf "
+                "exactly as before; tear-down: only the failing command's own anchor may keep its content, the other "
+                "family's anchor is flushed and pf is enabled/disabled as before); the anchor references add_anchors() "
+                "leaves in the main ruleset are a known finding. "
                 "Signals: not a theorem; decided on a real "
                 "helper process on every run (real setup_daemon handlers, file-backed packet filter): SIGHUP/SIGPIPE ignored, "
                 "SIGINT/SIGTERM relayed to the client every time they arrive, rules restored once the control channel closes. "
@@ -1650,7 +1655,12 @@ PF_DIALOGUE = ['ROUTES\n', '2,24,0,1.2.3.0,0,0\n', '2,32,1,1.2.3.66,8080,8080\n'
 
 
 def pf_oracle(case, o):
-    """pf must be back in its pre-session state.  Returns [(key, expected, observed, note)]."""
+    """pf must be back in its pre-session state.  Returns [(key, expected, observed, note)].
+
+    Fault-free runs and faults before the finally block: enabled flag, tokens, module, skip and anchor
+    contents exactly as before.  A single fault in a tear-down command of a session with both families:
+    the failing command's own anchor may keep its content, nothing else may differ -- the other family's
+    anchor is flushed and pf is enabled/disabled (and holds the tokens) as it was before the session."""
     bad = []
     p0, p1 = o.pf0, o.py.pf
     if o.final.split(' pf{')[0] != o.s0.split(' pf{')[0]:
@@ -1658,11 +1668,41 @@ def pf_oracle(case, o):
                     'a pf session changed iptables/nft state'))
     core0 = dict((k, p0[k]) for k in ('en', 'tok', 'ld', 'skip', 'anch'))
     core1 = dict((k, p1[k]) for k in ('en', 'tok', 'ld', 'skip', 'anch'))
-    if core1 != core0:
-        key = 'C04:pf:fd-exhaustion:not-undone' if case.fd_budget is not None else 'C04:pf:session-not-identity'
-        bad.append((key, 'pf as before the session: %r' % (core0,), 'pf after the helper ended: %r' % (core1,),
-                    'anchor contents / enabled state / tokens / module state differ after the session; '
-                    'exit=%s, descriptors taken from the budget: %s' % (o.exit, o.fd_used)))
+    fi = case.fault_indices()
+    teardown_fault = bool(fi) and o.undo_at is not None and o.undo_at <= min(fi) < o.ncmd
+    tag = 'spawn-error' if case.spawn else 'fault'
+    where = 'exit=%s, commands=%d, finally began at command %s, descriptors taken from the budget: %s' % (
+        o.exit, o.ncmd, o.undo_at, getattr(o, 'fd_used', 0))
+    if not teardown_fault:
+        if core1 != core0:
+            if case.fd_budget is not None:
+                key = 'C04:pf:fd-exhaustion:not-undone'
+            elif fi:
+                key = 'C04:pf:setup-%s:not-undone' % tag
+            else:
+                key = 'C04:pf:session-not-identity'
+            bad.append((key, 'pf as before the session: %r' % (core0,), 'pf after the helper ended: %r' % (core1,),
+                        'anchor contents / enabled state / tokens / module state differ after the session; ' + where))
+    else:
+        failed = o.log[min(fi)][0]
+        own = None
+        if failed[:2] == ['pfctl', '-a'] and failed[3:] == ['-F', 'all']:
+            own = failed[2]
+        flat0 = dict((k, core0[k]) for k in ('en', 'tok', 'ld', 'skip'))
+        flat1 = dict((k, core1[k]) for k in ('en', 'tok', 'ld', 'skip'))
+        if flat1 != flat0:
+            bad.append(('C04:pf:teardown-%s:enabled-state-not-restored' % tag,
+                        'pf enabled flag / tokens / module as before the session: %r' % (flat0,),
+                        'after the helper ended: %r (failed command: %s)' % (flat1, ' '.join(failed)),
+                        'a failing tear-down command of one family kept the helper from putting pf back; ' + where))
+        left = [a[0] for a in core1['anch'] if a not in core0['anch'] and a[0] != own]
+        gone = [a[0] for a in core0['anch'] if a not in core1['anch']]
+        if left or gone:
+            bad.append(('C04:pf:teardown-%s:other-family-not-restored' % tag,
+                        'only the anchor of the failing command (%s) may keep its content' % own,
+                        'anchors with content left: %r, foreign anchors lost: %r (failed command: %s)'
+                        % (left, gone, ' '.join(failed)),
+                        'a failing tear-down command of one family prevented the other family\'s tear-down; ' + where))
     if p1['main'] != p0['main']:
         extra = p1['main'][len(p0['main']):]
         refs_only = p1['main'][:len(p0['main'])] == p0['main'] and all(
@@ -1674,24 +1714,35 @@ def pf_oracle(case, o):
     return bad
 
 
+PF_FOREIGN = [['pfctl', '-a', 'com.example/vpn', '-f', '/dev/stdin']]     # another tool's anchor (content on stdin)
+
+
 def pf_cases(ctx):
+    """(case, enumerate_faults)"""
     flavours = ['pf-openbsd'] + (['pf-darwin'] if ctx.thorough else [])
     for m in flavours:
-        # an ordinary session; then a long one: many redirected connections, each answered through /dev/pf,
-        # with a budget of descriptors the helper process may still open (RLIMIT_NOFILE at the OS boundary)
-        yield Case(m, PF_DIALOGUE, ports=[12300, 12301])
+        # an ordinary session with both families; pf enabled before the session; IPv4 only; then a long one:
+        # many redirected connections, each answered through /dev/pf, with a budget of descriptors the helper
+        # process may still open (RLIMIT_NOFILE at the OS boundary)
+        yield Case(m, PF_DIALOGUE, prelude=PF_FOREIGN, ports=[12300, 12301]), m == 'pf-openbsd'
+        yield Case(m, PF_DIALOGUE, ports=[12300, 12301], pfinit=dict(en=True)), False
+        yield Case(m, [l for l in PF_DIALOGUE if not l.startswith('10,')], ports=[12300, 12301]), False
         n, budget = (1100, 1000) if ctx.thorough else (60, 40)
         q = ['QUERY_PF_NAT 2,6,10.0.0.%d,%d,127.0.0.1,12301\n' % (i % 250 + 1, 40000 + i) for i in range(n)]
-        yield Case(m, PF_DIALOGUE + q, ports=[12300, 12301], fd_budget=budget)
+        yield Case(m, PF_DIALOGUE + q, ports=[12300, 12301], fd_budget=budget), False
 
 
 def run_pf(ctx, box, lean):
-    for case in pf_cases(ctx):
+    def one(case):
         o = execute(box, case, lean)
         o.fd_used = box.fd_used
         ctx.count()
-        ctx.mark((case.method, len(case.chunks), case.fd_budget), o.ncmd > 0)
-        ctx.hist('%s:%s' % (case.method, 'fd-budget' if case.fd_budget is not None else 'plain'))
+        ctx.mark((case.method, len(case.chunks), case.fd_budget, tuple(case.faults), tuple(sorted(case.spawn.items())),
+                  bool(case.pfinit)), o.ncmd > 0)
+        fi = case.fault_indices()
+        phase = 'none' if not fi else ('teardown' if o.undo_at is not None and min(fi) >= o.undo_at else 'setup')
+        ctx.hist('%s:%s' % (case.method, 'fd-budget' if case.fd_budget is not None else
+                            ('spawn-error-' if case.spawn else 'fault-') + phase))
         for key, exp, obs, note in pf_oracle(case, o):
             cj = case.to_json()
             if len(cj['dialogue']) > 20:
@@ -1699,7 +1750,21 @@ def run_pf(ctx, box, lean):
                 nq = len(cj['dialogue']) - len(PF_DIALOGUE)
                 cj['dialogue'] = cj['dialogue'][:len(PF_DIALOGUE)]
                 cj['pf_queries'] = nq
-            ctx.violation(key, case=cj, expected=exp, observed=obs, note=note, kind='ops')
+            ctx.violation(key, case=cj, expected=exp, observed=obs, note=note,
+                          kind='faults' if fi else 'ops')
+        return o
+
+    for case, faults in pf_cases(ctx):
+        o0 = one(case)
+        if not faults:
+            continue
+        # both families in one session (they share _pf_context): every command of set-up and of tear-down
+        # fails once -- with an exit status, and because it cannot be spawned
+        for k in range(o0.ncmd):
+            one(Case(case.method, case.chunks, faults=[k], prelude=case.prelude, ports=case.ports,
+                     pfinit=case.pfinit))
+            one(Case(case.method, case.chunks, spawn={k: ('EAGAIN', 'ENOENT')[k % 2]}, prelude=case.prelude,
+                     ports=case.ports, pfinit=case.pfinit))
 
 
 METHODS_QUICK = ['nat', 'tproxy', 'nft']
